@@ -31,10 +31,10 @@ static char *verif_strdup(const char *s)
 	size_t n = 0;
 	verif_strdup_calls++;
 	verif_strdup_arg = s;
-	if (__CPROVER_OBJECT_SIZE(s) == 256) {
+	if (__CPROVER_OBJECT_SIZE(s) == QB_LOG_ABSOLUTE_MAX_LEN) {
 		/* the expansion buffer: terminated where the formatter stopped (ghost mirror of its output index) */
 		n = verif_out_idx;
-		POST(n < 256 && s[n] == 0, "the expanded format is NUL-terminated inside the 256-byte buffer");
+		POST(n < QB_LOG_ABSOLUTE_MAX_LEN && s[n] == 0, "the expanded format is NUL-terminated inside the expansion buffer");
 	} else {
 		n = verif_strlen(s);
 	}
